@@ -239,7 +239,7 @@ def family_c21(prop, fail, unit_res, repo, verif, build, timeout=1200):
     open(lib, "w").write(src)
     if os.path.exists(os.path.join(repo, "Cargo.lock")):
         shutil.copy(os.path.join(repo, "Cargo.lock"), os.path.join(d, "Cargo.lock"))
-    env = dict(os.environ, CARGO_NET_OFFLINE="true", CARGO_TARGET_DIR=os.path.join(build, "replay-c21_shim-target"), WALRUS_QUIET="1")
+    env = dict(os.environ, CARGO_NET_OFFLINE="true", CARGO_TARGET_DIR=os.path.join(build, "replay-c21_shim-target"), WALRUS_QUIET="1", WALRUS_REPLAY_ALL="1")
     scratch = os.path.join(build, "replay-scratch-c21")
     shutil.rmtree(scratch, ignore_errors=True)
     os.makedirs(scratch, exist_ok=True)
@@ -248,10 +248,10 @@ def family_c21(prop, fail, unit_res, repo, verif, build, timeout=1200):
     last = [l for l in p.stdout.splitlines() if l.startswith("{")]
     if not last:
         return dict(counterexample=None, counterexample_search="c21_shim gave no verdict (rc=%d): %s" % (p.returncode, p.stderr[-600:]))
-    v = json.loads(last[-1])
-    if v.get("found"):
-        return dict(counterexample=v, counterexample_search="scenario family replay/c21_shim/c21_family run natively against the real WriteAheadLog (tokio stand-in)")
-    return dict(counterexample=None, counterexample_search="scenario family c21_shim/c21_family: %s histories, none failed" % v.get("tried"))
+    found = [json.loads(l) for l in last if json.loads(l).get("found")]
+    if found:
+        return dict(counterexample=found[0], all_found=found, counterexample_search="scenario family replay/c21_shim/c21_family run natively against the real WriteAheadLog (tokio stand-in)")
+    return dict(counterexample=None, counterexample_search="scenario family c21_shim/c21_family: %s histories, none failed" % json.loads(last[-1]).get("tried"))
 
 
 FAMILIES["C21"] = family_c21
